@@ -2,9 +2,9 @@
    pack_ok, expected result of unpack), the proofs are in Proofs.PackBits / PackRoundtrip / PackRoundtripGraph /
    PackRoundtripMol / PackLayout / PackElements / PackProofs / PackRxn / PackRxnLen / PackV0 / F16Proofs. *)
 From Coq Require Import ZArith List Bool.
-From Model Require Import PyBase Graph StereoRegistry Pack PackSpec PackSpecV0 PackApi PackRxnApi PackStereo PackStereoSpec PackMol F16.
-From Gen Require Import Elements PackSpecGen.
-From Proofs Require Import PackBits PackRoundtrip PackRoundtripGraph PackRoundtripMol PackLayout PackElements PackApiProofs PackProofs PackRxn PackRxnLen PackV0 PackV0Unpack PackStereoProofs PackStereoDisjoint PackApiRegistry PackMolProofs PackApiExt PackSpecGenProofs F16Proofs.
+From Model Require Import PyBase Graph StereoRegistry Pack PackSpec PackSpecV0 PackApi PackRxnApi PackStereo PackStereoSpec PackMol PackTop PackLen PackRxnRt F16.
+From Gen Require Import Elements PackSpecGen PackTopGen PackLenGen PackRxnGen.
+From Proofs Require Import PackBits PackRoundtrip PackRoundtripGraph PackRoundtripMol PackLayout PackElements PackApiProofs PackProofs PackRxn PackRxnLen PackV0 PackV0Unpack PackStereoProofs PackStereoDisjoint PackApiRegistry PackMolProofs PackApiExt PackSpecGenProofs PackTopProofs PackTopApi PackLenTie PackRxnLenV0 PackRxnTie F16Proofs.
 Import ListNotations.
 Open Scope Z_scope.
 
@@ -432,3 +432,152 @@ Theorem C10_h_none_decode :
                                      (if Z.shiftr e 5 =? gen_h_none_value then None else Some (Z.shiftr e 5))) (zrange 0 256) = true.
 Proof. exact h_decode_sweep. Qed.
 Print Assumptions C10_h_none_decode.
+
+(* ============================================================================================================
+   PUBLIC DECODE ENTRY POINTS (round 4).  TIE BY TRANSLATION: coq/gen/PackTopGen.v is regenerated on every run by
+   tools/gen_packtop.py (fail closed) from the BODIES of chython.containers.unpach (__init__.py),
+   MoleculeContainer.unpack (molecule.py) and ReactionContainer.unpack (reaction.py), statement by statement; what the
+   bodies call (zlib, the .pyx decoder, mol.bond(..)._stereo = s, calc_labels) are parameters.
+   (a) the generic dispatcher: molecule decoder first, ONLY ValueError falls through to the reaction decoder *)
+Theorem C10_gen_unpach_is_model : forall (M R : Type) dec (mu : list Z -> pyres M) (ru : list Z -> pyres R) c d,
+  gen_unpach dec mu ru c d = top_unpack dec mu ru c d.
+Proof. exact gen_unpach_is_model. Qed.
+Print Assumptions C10_gen_unpach_is_model.
+
+(* (b) MoleculeContainer.unpack: header test `data[0] in (0, 2)`, decode, the loop `for n, m, s in cis_trans: if n in
+   centers: mol.bond( *centers[n])._stereo = s`, else-branch ValueError, calc_labels unless skipped, the two return shapes
+   == the hand model api_unpack (PackStereo) used by the API level round-trip theorems, for ALL byte strings *)
+Theorem C10_gen_mol_unpack_is_model : forall paths (calc : amol -> amol) (skip ret : bool) dec data,
+  gen_mol_unpack dec unpack3 (fun _ => centers_of paths) set_bond calc false skip ret data =
+  match api_unpack paths data with
+  | Ok (a, adj, sz) => let g := if skip then (a, adj) else calc (a, adj) in Ok (if ret then inl (g, sz) else inr g)
+  | Err e => Err e
+  end.
+Proof. exact gen_mol_unpack_is_model. Qed.
+Print Assumptions C10_gen_mol_unpack_is_model.
+
+(* (c) ReactionContainer.unpack: header test `data[0] != 1`, the three counts, the walk `m, pl = MoleculeContainer.unpack(
+   data[shift:], ..); molecules.append(m); shift += pl`, the role slices placed by the parameter names of __init__ ==
+   the hand model rxn_unpack_with (cons recursion, rxn_split), for ALL byte strings and any molecule decoder *)
+Theorem C10_gen_rxn_unpack_is_model : forall (M : Type) dec (f : list Z -> pyres (M * Z)) data,
+  gen_rxn_unpack dec f false data = rxn_unpack_with f data.
+Proof. exact gen_rxn_unpack_is_model. Qed.
+Print Assumptions C10_gen_rxn_unpack_is_model.
+
+(* chython.unpack / unpach on a MOLECULE pack of EITHER version (vbytes: the declarative version 2 or version 0 bit
+   layout), followed by anything: the molecule -- legacy version 0 packs keep decoding through the generic entry point *)
+Theorem C10_top_unpack_molecule : forall (vm : bool * pmol) suf, pack_ok (snd vm) = true ->
+  top_unpack_raw (vbytes vm ++ suf) = Ok (inl (unpacked_of (snd vm) (Z.of_nat (length (vbytes vm))))).
+Proof. exact top_unpack_molecule. Qed.
+Print Assumptions C10_top_unpack_molecule.
+
+(* ReactionContainer.unpack with the molecule headers checked (each molecule goes through MoleculeContainer.unpack), on
+   reaction packs whose molecule packs are version 2 or version 0 IN ANY MIXTURE, all role sizes 0..255 incl. empty
+   sides, followed by anything (formerly search only for version 0) *)
+Theorem C10_rxn_unpack_versions : forall (rs ags ps : list (bool * pmol)) suf,
+  Forall vok rs -> Forall vok ags -> Forall vok ps ->
+  (length rs <= 255)%nat -> (length ags <= 255)%nat -> (length ps <= 255)%nat ->
+  rxn_unpack_h (rxn_bytes rs ags ps ++ suf) = Ok (map vresult rs, map vresult ags, map vresult ps).
+Proof. exact rxn_h_roundtrip. Qed.
+Print Assumptions C10_rxn_unpack_versions.
+
+(* chython.unpack on such a reaction pack: the molecule decoder refuses header byte 1 with ValueError, the reaction comes back *)
+Theorem C10_top_unpack_reaction : forall (rs ags ps : list (bool * pmol)) suf,
+  Forall vok rs -> Forall vok ags -> Forall vok ps ->
+  (length rs <= 255)%nat -> (length ags <= 255)%nat -> (length ps <= 255)%nat ->
+  top_unpack_raw (rxn_bytes rs ags ps ++ suf) = Ok (inr (map vresult rs, map vresult ags, map vresult ps)).
+Proof. exact top_unpack_reaction. Qed.
+Print Assumptions C10_top_unpack_reaction.
+
+(* and on what ReactionContainer.pack(check=True) writes *)
+Theorem C10_top_unpack_rxn_api : forall rs ags ps : list pmol,
+  Forall api_ok rs -> Forall api_ok ags -> Forall api_ok ps ->
+  (length rs <= 255)%nat -> (length ags <= 255)%nat -> (length ps <= 255)%nat ->
+  exists bytes, rxn_api_pack true rs ags ps = Ok bytes /\
+    top_unpack_raw bytes = Ok (inr (map (fun m => unpacked_of m (pack_size m)) rs, map (fun m => unpacked_of m (pack_size m)) ags,
+                                    map (fun m => unpacked_of m (pack_size m)) ps)).
+Proof. exact top_unpack_rxn_api. Qed.
+Print Assumptions C10_top_unpack_rxn_api.
+
+(* the dispatcher at API level (labels re-attached; any reaction decoder, any zlib): chython.unpack(m.pack()) is m, for
+   every molecule of C10_api_roundtrip resp. C10_mc_roundtrip, uncompressed and -- when decompress returns the pack -- compressed *)
+Theorem C10_top_unpack_api : forall (R : Type) dec (ru : list Z -> pyres R) atoms paths suf,
+  pack_ok (api_pmol atoms paths) = true -> labels_sym_b atoms = true ->
+  paths_disjoint_b paths = true -> labelled_registered_b atoms paths = true ->
+  exists bytes, api_pack atoms paths = Ok bytes /\
+    top_unpack dec (api_unpack paths) ru false (bytes ++ suf) = Ok (inl (map uatom_of atoms, ladj_of_atoms atoms, Z.of_nat (length bytes))) /\
+    forall z, dec z = Ok (bytes ++ suf) ->
+      top_unpack dec (api_unpack paths) ru true z = Ok (inl (map uatom_of atoms, ladj_of_atoms atoms, Z.of_nat (length bytes))).
+Proof. exact top_unpack_api. Qed.
+Print Assumptions C10_top_unpack_api.
+
+Theorem C10_top_unpack_mc : forall (R : Type) dec (ru : list Z -> pyres R) g xyf suf, mc_ok g xyf = true ->
+  exists bytes, mc_pack g xyf = Ok bytes /\
+    top_unpack dec mc_unpack ru false (bytes ++ suf) = Ok (inl (g, map xyf (ids g), Z.of_nat (length bytes))) /\
+    forall z, dec z = Ok (bytes ++ suf) ->
+      top_unpack dec mc_unpack ru true z = Ok (inl (g, map xyf (ids g), Z.of_nat (length bytes))).
+Proof. exact top_unpack_mc. Qed.
+Print Assumptions C10_top_unpack_mc.
+
+(* errors of the dispatcher: empty -> IndexError; first byte other than 0, 1, 2 -> ValueError; an error of the molecule
+   decoder other than ValueError (truncated molecule pack) is not retried as a reaction *)
+Theorem C10_top_unpack_errors :
+  top_unpack_raw [] = Err IndexError /\
+  (forall h rest, h <> 0 -> h <> 1 -> h <> 2 -> top_unpack_raw (h :: rest) = Err ValueError) /\
+  (forall data e, hdr_unpack data = Err e -> e <> ValueError -> top_unpack_raw data = Err e).
+Proof. exact top_unpack_errors. Qed.
+Print Assumptions C10_top_unpack_errors.
+
+(* non-vacuity, evaluated: the molecule at the format limits in both versions, alone and in a reaction pack with an empty
+   reagent side whose product packs are of different versions *)
+Theorem C10_top_unpack_example :
+  vok (true, pack_example) /\ hd 9 (vbytes (true, pack_example)) = 2 /\ hd 9 (vbytes (false, pack_example)) = 0 /\
+  match top_unpack_raw (vbytes (false, pack_example)) with Ok (inl u) => up_size u =? Z.of_nat (length (vbytes (false, pack_example))) | _ => false end = true /\
+  match top_unpack_raw (rxn_bytes [(false, pack_example)] [] [(true, pack_example); (false, pack_example)]) with
+  | Ok (inr (r, a, p)) => (Z.of_nat (length r) =? 1) && (Z.of_nat (length a) =? 0) && (Z.of_nat (length p) =? 2)
+  | _ => false
+  end = true.
+Proof. exact top_unpack_example. Qed.
+Print Assumptions C10_top_unpack_example.
+
+(* LENGTH HELPERS, tie by translation (coq/gen/PackLenGen.v, regenerated on every run from the bodies of
+   MoleculeContainer.pack_len and ReactionContainer.pack_len): the header tests, `int.from_bytes(data[1:3], 'big') >> 4`, the
+   walk over the molecule packs -- `acs >> 12`, the neighbour nibbles `data[shift] & 0x0f` every 9 bytes, `neighbors //= 2`, the
+   version dependent step `3 * neighbors + ceil(neighbors * 3 / 8) + (acs & 0x0fff) * 4` resp. `.. ceil(neighbors / 5) * 2 ..`,
+   the last molecule, the role slices -- are the hand models mol_pack_len / rxn_pack_len of the length theorems
+   (C10_pack_len_correct, C10_rxn_pack_len_correct, C10_rxn_api_roundtrip), for ALL byte strings *)
+Theorem C10_gen_mol_pack_len_is_model : forall dec data, gen_mol_pack_len dec false data = mol_pack_len data.
+Proof. exact gen_mol_pack_len_is_model. Qed.
+Print Assumptions C10_gen_mol_pack_len_is_model.
+
+Theorem C10_gen_rxn_pack_len_is_model : forall dec data, gen_rxn_pack_len dec false data = rxn_pack_len data.
+Proof. exact gen_rxn_pack_len_is_model. Qed.
+Print Assumptions C10_gen_rxn_pack_len_is_model.
+
+(* ReactionContainer.pack_len on reaction packs PUBLISHED EARLIER (every molecule pack in the version 0 layout), all role
+   sizes 0..255 with at least one molecule, empty sides included: the atom counts role by role (the walk steps over 2
+   bytes per 5 bonds; formerly search only) *)
+Theorem C10_rxn_pack_len_v0_correct : forall rs ags ps : list pmol,
+  Forall (fun m => pack_ok m = true) rs -> Forall (fun m => pack_ok m = true) ags -> Forall (fun m => pack_ok m = true) ps ->
+  (length rs <= 255)%nat -> (length ags <= 255)%nat -> (length ps <= 255)%nat -> (1 <= length rs + length ags + length ps)%nat ->
+  rxn_pack_len ([1; Z.of_nat (length rs); Z.of_nat (length ags); Z.of_nat (length ps)] ++
+                concat (map (fun m => bytes_of_bits (layout_v0 m)) (rs ++ ags ++ ps)))
+  = Ok (map natoms rs, map natoms ags, map natoms ps).
+Proof. exact rxn_pack_len_v0_correct. Qed.
+Print Assumptions C10_rxn_pack_len_v0_correct.
+
+Theorem C10_rxn_pack_len_v0_example :
+  pack_ok pack_example = true /\
+  rxn_pack_len ([1; 1; 0; 2] ++ concat (map (fun m => bytes_of_bits (layout_v0 m)) [pack_example; pack_example; pack_example]))
+  = Ok ([16], [], [16; 16]).
+Proof. exact rxn_pack_len_v0_example. Qed.
+Print Assumptions C10_rxn_pack_len_v0_example.
+
+(* ReactionContainer.pack, tie by translation (coq/gen/PackRxnGen.v): the header `bytearray((1, len(self.reactants),
+   len(self.reagents), len(self.products)))` element by element, the order in which molecules() chains the roles, the call
+   m.pack(compressed=False, check=check), the compression switch == the hand model rxn_api_pack of the reaction theorems, for
+   all reactions *)
+Theorem C10_gen_rxn_pack_is_model : forall compress check (rs ags ps : list pmol),
+  gen_rxn_pack compress mol_pack false check rs ags ps = rxn_api_pack check rs ags ps.
+Proof. exact gen_rxn_pack_is_model. Qed.
+Print Assumptions C10_gen_rxn_pack_is_model.
